@@ -1,0 +1,77 @@
+/* Verification hooks: compiled only with `--cfg decmathlib_rs_verif`.                                  */
+/* Read-only access to the raw encoding of a d128 and to the crate's constant tables, so that an       */
+/* external checker can compare them with their mathematical definitions.  Nothing here changes the    */
+/* behaviour of the library.                                                                            */
+
+#![allow(dead_code)]
+
+use crate::bid_internal::{BID_UINT192, BID_UINT256, DEC_DIGITS};
+use crate::d128::d128;
+
+/// Raw 128-bit encoding of `x` (w[1] is the high word).
+pub fn to_bits(x: &d128) -> u128 {
+    ((x.w[1] as u128) << 64) | (x.w[0] as u128)
+}
+
+/// A constant table flattened to 64-bit words (little-endian word order inside multi-word entries).
+pub struct Table {
+    pub name: &'static str,
+    /// number of top-level entries
+    pub len: usize,
+    pub words: Vec<u64>,
+}
+
+pub trait Flat { fn flat(&self, out: &mut Vec<u64>); }
+impl Flat for u64  { fn flat(&self, out: &mut Vec<u64>) { out.push(*self) } }
+impl Flat for u32  { fn flat(&self, out: &mut Vec<u64>) { out.push(*self as u64) } }
+impl Flat for u8   { fn flat(&self, out: &mut Vec<u64>) { out.push(*self as u64) } }
+impl Flat for i32  { fn flat(&self, out: &mut Vec<u64>) { out.push(*self as i64 as u64) } }
+impl Flat for char { fn flat(&self, out: &mut Vec<u64>) { out.push(*self as u64) } }
+impl Flat for &str { fn flat(&self, out: &mut Vec<u64>) { out.push(self.len() as u64); for b in self.bytes() { out.push(b as u64) } } }
+impl Flat for d128 { fn flat(&self, out: &mut Vec<u64>) { out.extend_from_slice(&self.w) } }
+impl Flat for BID_UINT192 { fn flat(&self, out: &mut Vec<u64>) { out.extend_from_slice(&self.w) } }
+impl Flat for BID_UINT256 { fn flat(&self, out: &mut Vec<u64>) { out.extend_from_slice(&self.w) } }
+impl Flat for DEC_DIGITS {
+    fn flat(&self, out: &mut Vec<u64>) {
+        out.push(self.digits as u64); out.push(self.threshold_hi); out.push(self.threshold_lo); out.push(self.digits1 as u64)
+    }
+}
+impl<T: Flat, const N: usize> Flat for [T; N] { fn flat(&self, out: &mut Vec<u64>) { for e in self.iter() { e.flat(out) } } }
+
+pub(crate) fn table<T: Flat, const N: usize>(name: &'static str, t: &[T; N]) -> Table {
+    let mut words = Vec::new();
+    t.flat(&mut words);
+    Table { name, len: N, words }
+}
+
+macro_rules! tables {
+    ($out:ident; $($p:path),* $(,)?) => { $( $out.push(table(stringify!($p), &$p)); )* };
+}
+
+/// Every constant table of the crate as it was compiled in.
+pub fn tables() -> Vec<Table> {
+    use crate::bid128::*;
+    use crate::bid128_2_str_tables::*;
+    use crate::bid_b2d::*;
+    use crate::bid_convert_data::*;
+    use crate::bid_decimal_data::*;
+    let mut out: Vec<Table> = Vec::new();
+    tables!(out;
+        BID_NR_DIGITS, BID_MIDPOINT64, BID_MIDPOINT128, BID_MIDPOINT192, BID_MIDPOINT256,
+        BID_TEN2K64, BID_TEN2K128, BID_TEN2K256,
+        BID_TEN2MK128, BID_SHIFTRIGHT128, BID_MASKHIGH128, BID_ONEHALF128, BID_TEN2MK128TRUNC,
+        BID_CHAR_TABLE2, BID_CHAR_TABLE3,
+        BID_KX64, BID_EX64M64, BID_HALF64, BID_MASK64, BID_TEN2MXTRUNC64,
+        BID_KX128, BID_EX128M128, BID_HALF128, BID_MASK128, BID_TEN2MXTRUNC128,
+        BID_KX192, BID_EX192M192, BID_HALF192, BID_MASK192, BID_TEN2MXTRUNC192,
+        BID_KX256, BID_EX256M256, BID_HALF256, BID_MASK256, BID_TEN2MXTRUNC256,
+        BID_MIDI_TBL, MOD10_18_TBL,
+        BID_D2B, BID_B2D,
+        BID_CONVERT_TABLE, BID_PACKED_10000_ZEROS, BID_FACTORS,
+        BID_ROUND_CONST_TABLE_128, BID_RECIPROCALS10_128, BID_POWER10_TABLE_128,
+        BID_RECIP_SCALE, BID_ESTIMATE_DECIMAL_DIGITS, BID_POWER10_INDEX_BINEXP_128,
+        BID_SHORT_RECIP_SCALE, BID_RECIPROCALS10_64,
+    );
+    crate::bid_binarydecimal::verif_tables(&mut out);
+    out
+}
